@@ -436,6 +436,10 @@ func (s *Storer) GetAofWritter(r io.Reader, offset int64) (*AofWriter, error) {
 	return w, nil
 }
 
+func (s *Storer) hasSeg(left int64) bool {
+	return s.findAof(left) != nil
+}
+
 func (s *Storer) lastSeg() int64 {
 	return s.getDataSet().LastAofSeg()
 }
